@@ -132,10 +132,13 @@ def install():
                                       f"{_i(ci.start)}..{_i(ci.end)} ({r.label}): producer stripe {_shp(ps)}, consumer stripe input {_shp(cs)}"})
             if self.spilling:
                 cache = _i(getattr(self.sched_ops[0].arch, "arena_cache_size", limit))
-                # Dedicated SRAM: the limit the builder works with is the size of the SRAM cache at most
-                _spec.append({"kind": "guide_limit", "line": f"smle {_i(limit)} {cache}",
-                              "what": f"Dedicated SRAM: build_cascades ({r.label}) accepted cascade {_i(ci.start)}..{_i(ci.end)} under the limit "
-                                      f"{_i(limit)}, arena cache size {cache}"})
+                # Dedicated SRAM: the limit the builder works with is the size of the SRAM cache at most. This judges the CALLER
+                # (schedule_passes); calls the harness makes itself on generated operator chains (label stubref*) choose their own
+                # limit and are not judged by it
+                if not str(r.label).startswith("stubref"):
+                  _spec.append({"kind": "guide_limit", "line": f"smle {_i(limit)} {cache}",
+                                "what": f"Dedicated SRAM: build_cascades ({r.label}) accepted cascade {_i(ci.start)}..{_i(ci.end)} under the limit "
+                                        f"{_i(limit)}, arena cache size {cache}"})
                 # Dedicated SRAM: the buffers of an accepted cascade fit the limit the builder was given
                 _spec.append({"kind": "spill_limit", "line": f"smle {_i(ci.mem_usage) + info['nl']} {_i(limit)}",
                               "what": f"cascade {_i(ci.start)}..{_i(ci.end)} ({r.label}) accepted with buffers of {_i(ci.mem_usage) + info['nl']} bytes, limit {_i(limit)}"})
